@@ -170,6 +170,29 @@ fn builder(base: &Path, tree: &TreeSpec, cfg: &WalkCfg) -> WalkBuilder {
     if cfg.sort_names {
         b.sort_by_file_name(|a, b| a.cmp(b));
     }
+    if let Some(so) = &cfg.skip_stdout {
+        // the builder looks at what standard output is when skip_stdout is called: for that
+        // moment descriptor 1 is the chosen file of the tree (the harness's own output is
+        // written long after it has been put back)
+        use std::io::Write;
+        let _ = std::io::stdout().flush();
+        let c = std::ffi::CString::new(base.join(so).as_os_str().to_string_lossy().as_bytes()).unwrap();
+        unsafe {
+            let saved = libc::dup(1);
+            let fd = libc::open(c.as_ptr(), libc::O_WRONLY | libc::O_APPEND);
+            if saved >= 0 && fd >= 0 {
+                libc::dup2(fd, 1);
+                b.skip_stdout(true);
+                libc::dup2(saved, 1);
+            }
+            if fd >= 0 {
+                libc::close(fd);
+            }
+            if saved >= 0 {
+                libc::close(saved);
+            }
+        }
+    }
     b.require_git(false);
     b.parents(cfg.parents);
     b.max_depth(cfg.max_depth);
@@ -511,6 +534,13 @@ fn gen_case_c06(sub: u64, thorough: bool) -> Case {
     }
     cfg.type_x = rng.chance(1, 8);
     cfg.sort_names = rng.chance(1, 6);
+    if rng.chance(1, 8) {
+        // standard output is one of the tree's files (`rg pat > dir/out`)
+        let files: Vec<&Node> = tree.nodes.iter().filter(|n| matches!(n.kind, NodeKind::File(_))).collect();
+        if !files.is_empty() {
+            cfg.skip_stdout = Some(files[rng.below(files.len())].path.clone());
+        }
+    }
     let mut tree = tree;
     if rng.chance(1, 6) {
         // the tree's ignore files under a custom name that the builder is told about
@@ -1067,6 +1097,7 @@ fn worker_main(opts: &Opts) {
             let base = scratch.path().join("r");
             let _ = base;
             probes.add("max-depth-cut", case.cfg.max_depth.is_some() as u64);
+            probes.add("standard-output-is-a-file-of-the-tree(skip_stdout)", case.cfg.skip_stdout.is_some() as u64);
             probes.add("filesize-cut", case.cfg.max_filesize.is_some() as u64);
             probes.add("filter-cut", case.cfg.filter_char.is_some() as u64);
             probes.add("ignore-rule-cut", (case.cfg.ignore_files && case.tree.nodes.iter().any(|n| n.path.ends_with(".ignore") || n.path.ends_with(".gitignore"))) as u64);
